@@ -59,7 +59,7 @@ type c02Out struct {
 }
 
 // constJSON turns a constant into ["n",5] | ["name","/a"] | ["s","txt"] |
-// ["pair",a,b] | ["list",[..]] | ["other",printed].
+// ["b","bytes"] | ["pair",a,b] | ["list",[..]] | ["f",m,e] | ["other",printed].
 func constJSON(c ast.Constant) any {
 	switch c.Type {
 	case ast.NumberType:
@@ -68,6 +68,9 @@ func constJSON(c ast.Constant) any {
 		return []any{"name", c.Symbol}
 	case ast.StringType:
 		return []any{"s", c.Symbol}
+	case ast.BytesType:
+		// byte strings (ASCII content in the generated cases): ["b", content]
+		return []any{"b", c.Symbol}
 	case ast.PairShape:
 		a, b, err := c.PairValue()
 		if err != nil {
